@@ -18,6 +18,7 @@
 **                              repeat: argument lists holding the same object several times;
 **                              reentrant: arguments whose c_str/c_int/c_float/show themselves print_to;
 **                              longfmt: formats of 2^12 .. 2^23+4096 characters, main thread and small-stack pthread;
+**                              fmtreuse: sequences of formats written into one reused mutable buffer;
 **                              history: k caught formatting failures, then well-formed formattings;
 **                              recycle: sinks created and destroyed per formatting, alternating types
 **   conv=<letters>             conversions handled by this instance (from "diuoxXcsfFeEgGaAp$")
@@ -1614,6 +1615,133 @@ static void longfmt_mode(void) {
   vf_extra("longfmt_longest", "\"%s\"", LSIZEN[nsizes - 1]);
 }
 
+/* ---- format buffer reuse -------------------------------------------------------------------------------------
+** Sequences of 2..4 print_to calls whose formats are written one after the other into ONE mutable buffer
+** (a static char array; a malloc'ed block that is freed and re-malloc'ed between calls; two static buffers
+** used alternately, so that equal contents also appear at different addresses).  Every ordered sequence over
+** the piece alphabet, each piece appended at the position the previous one returned, String and File sink,
+** two starts; expected text is the concatenation of snprintf of the pieces.
+*/
+
+#define NPIECE 8
+static const char* PIECE[NPIECE]  = { "ab", ", ", "%d", "%$", "%s=", "%%", "x%5.2fy", "" };
+static const char* PIECEN[NPIECE] = { "ab", "comma", "%d", "%$", "%s=", "%%", "x%5.2fy", "empty" };
+static const char* BUFKIND[3] = { "one-static-buffer", "malloc-free-malloc", "two-alternating-buffers" };
+static int R_buf = -1;
+
+static const char* FR_NAMES[4] = { "k0", "key1", "", "k3" };
+static char fr_bufA[32], fr_bufB[32];
+
+/* the prints of one sequence; returns the exception that escaped, if any */
+static var __attribute__((noinline)) fmtreuse_run(var sink, int st, int L, const int* q, int bk, const size_t* cum, int* pos_out, int* bad_out) {
+  volatile int pos = st, badpiece = -1;
+  char* volatile hb = NULL;
+  volatile var e = NULL;
+  try {
+    for (volatile int i = 0; i < L; i++) {
+      var aI = $I(10 + i), aV = $I(20 + i), aS = $S((char*)FR_NAMES[i]), aF = $F(1.5 + i);
+      var args = q[i] == 2 ? tuple(aI) : q[i] == 3 ? tuple(aV) : q[i] == 4 ? tuple(aS) : q[i] == 6 ? tuple(aF) : tuple();
+      char* fb;
+      if (bk == 0) fb = fr_bufA;
+      else if (bk == 2) fb = (i & 1) ? fr_bufB : fr_bufA;
+      else { free(hb); hb = malloc(16); fb = hb; }       /* same size class every time: the block comes back */
+      strcpy(fb, PIECE[q[i]]);
+      int r = print_to_with(sink, pos, fb, args);
+      vf.executions++;
+      if (r != st + (int)cum[i + 1] && badpiece < 0) badpiece = i;
+      pos = r;
+    }
+  } catch (ex_) { e = ex_; }
+  free(hb);
+  *pos_out = pos; *bad_out = badpiece;
+  return e;
+}
+
+static void fmtreuse_mode(void) {
+  static char shown[4][32];
+  for (int i = 0; i < 4; i++) { assign(SS, $S("")); show_to($I(20 + i), SS, 0); snprintf(shown[i], sizeof shown[i], "%s", c_str(SS)); }
+  uint64_t seqs = 0;
+  for (int L = 2; L <= 4; L++) {
+    if (R_on && R_len >= 0 && L != R_len) continue;
+    int nseq = L == 2 ? 64 : L == 3 ? 512 : 4096;
+    for (int sq = 0; sq < nseq; sq++) {
+      if (R_on && R_seq >= 0 && sq != R_seq) continue;
+      int q[4] = { 0, 0, 0, 0 };
+      { int t = sq; for (int i = L - 1; i >= 0; i--) { q[i] = t % 8; t /= 8; } }
+      /* expected pieces and cumulative offsets */
+      char ex[4][40]; size_t cum[5]; cum[0] = 0;
+      int nt = 0;
+      for (int i = 0; i < L; i++) {
+        switch (q[i]) {
+        case 2: snprintf(ex[i], sizeof ex[i], "%d", 10 + i); break;
+        case 3: snprintf(ex[i], sizeof ex[i], "%s", shown[i]); break;
+        case 4: snprintf(ex[i], sizeof ex[i], "%s=", FR_NAMES[i]); break;
+        case 5: snprintf(ex[i], sizeof ex[i], "%%"); break;
+        case 6: snprintf(ex[i], sizeof ex[i], "x%5.2fy", 1.5 + i); break;
+        default: snprintf(ex[i], sizeof ex[i], "%s", PIECE[q[i]]); break;
+        }
+        cum[i + 1] = cum[i] + strlen(ex[i]);
+        if (i > 0 && q[i - 1] <= 1 && strchr(PIECE[q[i]], '%')) nt = 1;     /* plain text, then conversions at the same place */
+      }
+      char seqname[80]; { size_t o = 0; for (int i = 0; i < L; i++) o += snprintf(seqname + o, sizeof seqname - o, "%s%s", i ? " " : "", PIECEN[q[i]]); }
+      for (int bk = 0; bk < 3; bk++) {
+        if (R_on && R_buf >= 0 && bk != R_buf) continue;
+        vf_watchdog(60);
+        vf_set_cur("fmtreuse len=%d seq=%d buf=%d | pieces [%s] through %s", L, sq, bk, seqname, BUFKIND[bk]);
+        seqs++;
+        if (count_nt && nt && bk < 2) vf.nontrivial++;
+        for (int si = 0; si < 2; si++) {
+          if (R_on && R_s >= 0 && si != R_s) continue;
+          for (int k = 0; k < 2; k++) {
+            if (R_on && R_k >= 0 && k != R_k) continue;
+            int st = STARTS[si];
+            /* every sequence starts from the same situation: the last print was a plain literal elsewhere */
+            assign(SS, $S("")); print_to(SS, 0, "-");
+            if (k == 0) assign(SS, PFX); else { fseeko(ffp, 0, SEEK_SET); fwrite(PREFIX, 1, PLEN, ffp); }
+            var sink = k == 0 ? SS : FF;
+            int pos = st, badpiece = -1;
+            var e = fmtreuse_run(sink, st, L, q, bk, cum, &pos, &badpiece);
+            vf.evaluations++;
+            const char* got; size_t gl; int pok;
+            if (k == 0) {
+              const char* g = c_str(SS); size_t l = strlen(g);
+              pok = l >= (size_t)st && memcmp(g, PREFIX, st) == 0; got = g + (pok ? st : 0); gl = l - (pok ? st : 0);
+            } else {
+              off_t end = ftello(ffp); fflush(ffp);
+              pok = end >= PLEN && memcmp(mbuf, PREFIX, PLEN) == 0; got = mbuf + (pok ? PLEN : 0); gl = (size_t)end - (pok ? PLEN : 0);
+            }
+            char expect[200]; expect[0] = 0;
+            for (int i = 0; i < L; i++) strcat(expect, ex[i]);
+            size_t xl = cum[L];
+            /* nothing to write at all: a String sink is then not touched (it keeps what followed the start position) */
+            if (k == 0 && xl == 0) { snprintf(expect, sizeof expect, "%s", PREFIX + st); xl = strlen(expect); }
+            const char* sym = NULL; char symb[64]; int at = -1;
+            if (e) { snprintf(symb, sizeof symb, "raises-%s", vf_exc_name(e)); sym = symb; }
+            else if (!pok) sym = "prefix-damaged";
+            else if (gl != xl || memcmp(got, expect, xl) != 0) {
+              sym = "text-differs";
+              size_t d = 0; while (d < gl && d < xl && got[d] == expect[d]) d++;
+              for (int i = 0; i < L; i++) if (d >= cum[i] && (d < cum[i + 1] || i == L - 1)) { at = i; break; }
+              while (at >= 0 && at < L - 1 && cum[at + 1] == cum[at] && d >= cum[at + 1]) at++;
+            }
+            else if (badpiece >= 0) { sym = "position"; at = badpiece; }
+            if (sym) {
+              char lab[240], cs[200];
+              if (at >= 0) snprintf(lab, sizeof lab, "fmtreuse/%s/%s-after-%s/%s/%s", BUFKIND[bk], PIECEN[q[at]], at > 0 ? PIECEN[q[at - 1]] : "start", SINKNAME[k], sym);
+              else snprintf(lab, sizeof lab, "fmtreuse/%s/%s/%s", BUFKIND[bk], SINKNAME[k], sym);
+              snprintf(cs, sizeof cs, "fmtreuse len=%d seq=%d buf=%d s=%d k=%d | pieces [%s] through %s, start %d, sink %s", L, sq, bk, si, k, seqname, BUFKIND[bk], st, SINKNAME[k]);
+              vf_violation(lab, cs, "formats [%s] written one after the other into %s and printed to a %s from position %d: result '%s', final position %d%s; snprintf of the pieces gives '%s', final position %d",
+                seqname, BUFKIND[bk], SINKNAME[k], st, printable(got, gl), (int)pos, badpiece >= 0 ? " (a piece returned a wrong position)" : "", printable(expect, xl), st + (int)cum[L]);
+            }
+            if (nt && vf_want_sample()) vf_sample("pieces [%s] through %s to a %s at %d -> '%s'", seqname, BUFKIND[bk], SINKNAME[k], st, printable(expect, xl));
+          }
+        }
+      }
+    }
+  }
+  vf_extra("fmtreuse_sequences", "%" PRIu64, seqs);
+}
+
 /* ---- main ---------------------------------------------------------------------------------- */
 
 static void parse_replay(const char* r) {
@@ -1635,6 +1763,8 @@ static void parse_replay(const char* r) {
   if ((p = strstr(r, " seq="))) R_seq = atoi(p + 5);
   if ((p = strstr(r, " style="))) R_style = atoi(p + 7);
   if ((p = strstr(r, " rot="))) R_rot = atoi(p + 5);
+  if ((p = strstr(r, " buf="))) R_buf = atoi(p + 5);
+  if (strncmp(r, "fmtreuse", 8) == 0) return;
   if (strncmp(r, "reentrant", 9) == 0) {
     if ((p = strstr(r, " a="))) R_a = atoi(p + 3);
     if ((p = strstr(r, " b="))) R_b = atoi(p + 3);
@@ -1698,6 +1828,7 @@ int main(int argc, char** argv) {
     else if (strncmp(vf.replay, "reentrant", 9) == 0) mode = "reentrant";
     else if (strncmp(vf.replay, "history", 7) == 0) mode = "history";
     else if (strncmp(vf.replay, "longfmt", 7) == 0) mode = "longfmt";
+    else if (strncmp(vf.replay, "fmtreuse", 8) == 0) mode = "fmtreuse";
     else if (R_v >= 1000) { mode = "show"; R_h = R_v - 1000; R_v = -1; }
     else mode = "grid";
   }
@@ -1708,6 +1839,8 @@ int main(int argc, char** argv) {
     repeat_mode();
   } else if (strcmp(mode, "reentrant") == 0) {
     reentrant_mode();
+  } else if (strcmp(mode, "fmtreuse") == 0) {
+    fmtreuse_mode();
   } else if (strcmp(mode, "longfmt") == 0) {
     vf.phase = "longfmt";
     longfmt_mode();
